@@ -234,6 +234,7 @@ type libGoroutine struct {
 }
 
 var frameRe = regexp.MustCompile(`^(\S+)\(.*\)$`)
+var bubbleRe = regexp.MustCompile(`synctest bubble (\d+)`)
 
 func libFrame(fn string) bool {
 	return strings.HasPrefix(fn, "github.com/Breeze0806/gobinlog") || strings.HasPrefix(fn, "github.com/Breeze0806/mysql")
@@ -252,12 +253,26 @@ func probeGoroutines() []libGoroutine {
 		buf = make([]byte, len(buf)*2)
 	}
 	var out []libGoroutine
-	for _, g := range strings.Split(string(buf), "\n\n") {
+	gs := strings.Split(string(buf), "\n\n")
+	// the first goroutine printed is the caller; only goroutines of its synctest
+	// bubble belong to this run (earlier runs may have left unblockable ones behind)
+	bubble := ""
+	if len(gs) > 0 {
+		if m := bubbleRe.FindStringSubmatch(strings.SplitN(gs[0], "\n", 2)[0]); m != nil {
+			bubble = m[1]
+		}
+	}
+	for _, g := range gs {
 		lines := strings.Split(g, "\n")
 		if len(lines) < 2 {
 			continue
 		}
 		state := lines[0]
+		if bubble != "" {
+			if m := bubbleRe.FindStringSubmatch(state); m == nil || m[1] != bubble {
+				continue
+			}
+		}
 		var top, where string
 		for i := 1; i+1 < len(lines); i += 2 {
 			fn := strings.TrimSpace(lines[i])
